@@ -373,9 +373,10 @@ Definition dir_register_agent (st : nst) (a addr : Z) : RD :=
   (mkN d1 g, to_all (sm_get a (g_sub_agents g)) (MPubAgent a addr) ++ to_all (g_sub_all g) (MPubAgent a addr),
    e1, x1).
 
-(* Directory.unregister_computation: the directory's own Discovery is called with the default
-   publish=True, so "_discovery_orchestrator" sends an un-subscription and an un-publication
-   back to "_directory" (self channel) *)
+(* Directory.unregister_computation: since the /repo fix for C27-directory-echo-erases-registration
+   the directory's own Discovery is called with publish=False (before: the default publish=True made
+   "_discovery_orchestrator" send an un-subscription and an un-publication back to "_directory",
+   which could erase a later registration); [o1] below is therefore always empty *)
 (* since /repo e9e3188: an un-publication naming an agent that is not the registered host is ignored *)
 Definition stale_unpub (st : nst) (c : Z) (ag : option Z) : bool :=
   match ag, zlookup c (g_comps (n_dir st)) with
@@ -387,7 +388,7 @@ Definition dir_unregister_computation (st : nst) (c : Z) (ag : option Z) : RD :=
   if stale_unpub st c ag then (st, [], [], None)
   else if zmemk c (g_comps (n_dir st)) then
     let g := set_gcomps (n_dir st) (zdel c (g_comps (n_dir st))) in
-    let '(d1, o1, e1, x1) := d_unregister_computation (n_disc st) c None true in
+    let '(d1, o1, e1, x1) := d_unregister_computation (n_disc st) c None false in
     (mkN d1 g, to_self o1 ++ to_all (sm_get c (g_sub_comps g)) (MUnpubComp c ag), e1, x1)
   else (st, [], [], None).
 
